@@ -1,19 +1,22 @@
-//! rs2coq_core — translate the core functions of `<repo>/src/lib.rs` (the free
-//! functions `add_mod` / `sub_mod` and the inherent methods of
-//! `CircularBuffer<N, T>`) into the monadic Gallina of `theories/Machine.v`.
+//! rs2coq_core — translate the functions of the crate (`<repo>/src/{lib,iter,drain,io,embedded_io}.rs`)
+//! into the monadic Gallina of `theories/Machine.v`.
 //!
 //! usage: rs2coq_core <repo> <out.v> [--only f,g,...] [--strict]
 //!
-//! `<out.v>` receives one `Definition gen_<f>` per translated function, in
-//! dependency order; `<out.v>.json` a machine-readable summary. On stdout one
-//! line per function: `translated fn <f> ...` or `skipped fn <f>: <reason>`.
+//! `<out.v>` receives one `Definition gen_<f>` per translated function (and one
+//! `Fixpoint gen_<f>_loop<k>` per loop), in dependency order; `<out.v>.json` a
+//! machine-readable summary. On stdout one line per function: `translated fn <f> ...`
+//! or `skipped fn <f>: <reason>`.
 //!
 //! Exit status: 0 when every REQUIRED function (and, with --strict or --only,
 //! every requested function) was translated; 1 otherwise (the reasons are on
 //! stderr, each naming the function and the construct). A function that is not
 //! understood completely is never emitted.
 
+mod call;
+mod expr;
 mod ir;
+mod stmt;
 mod tr;
 
 use ir::*;
@@ -24,34 +27,190 @@ use syn::spanned::Spanned;
 use syn::{Item, Pat};
 use tr::*;
 
-const FREE: &[&str] = &["add_mod", "sub_mod"];
+const FREE_ARITH: &[&str] = &["add_mod", "sub_mod"];
 
-/// the functions that must translate (exit status 1 otherwise)
-const REQUIRED: &[&str] = &[
-    "add_mod", "sub_mod", "len", "capacity", "is_empty", "is_full", "inc_start", "dec_start", "inc_size",
-    "dec_size", "front_maybe_uninit", "front_maybe_uninit_mut", "back_maybe_uninit", "back_maybe_uninit_mut",
-    "get_maybe_uninit", "get_maybe_uninit_mut",
+/// functions that callers may refer to by their hand-written model when they are not translated
+const EXTERNALS: &[(&str, &str)] = &[
+    ("extend_from_slice", "Buf.extend_from_slice"),
+    ("write_uninit_slice_cloned", "Buf.write_uninit_slice_cloned"),
 ];
 
-/// attempted as well; reported as skipped when not understood
-const OPTIONAL: &[&str] = &[
-    "back", "back_mut", "front", "front_mut", "get", "get_mut", "nth_front", "nth_front_mut", "nth_back",
-    "nth_back_mut", "push_back", "try_push_back", "push_front", "try_push_front", "pop_back", "pop_front", "swap",
-    "swap_remove_back", "swap_remove_front", "drop_range", "truncate_back", "truncate_front", "clear", "remove",
-    "as_slices", "as_mut_slices", "slices_uninit_mut", "make_contiguous",
-];
-
-/// the name of the hand-written model of a function in theories/Buf.v
-fn hand_name(f: &str) -> String {
-    if f == "get" { "get_".into() } else { f.to_string() }
+/// where a function is
+#[derive(Clone, Copy)]
+enum Loc {
+    /// a free function of the file (the stable variant when there are two)
+    Free(&'static str),
+    /// a method: (type, trait, name); the trait as written in the impl, without generics
+    Method(&'static str, Option<&'static str>, &'static str),
+    /// a function declared inside the body of another: (key of the parent, name)
+    Nested(&'static str, &'static str),
 }
 
-struct Src<'a> {
-    sig: &'a syn::Signature,
-    attrs: &'a [syn::Attribute],
-    block: &'a syn::Block,
+struct Unit {
+    /// gen_<key>, and the name in all reports
+    key: &'static str,
+    /// the name tools/srcmap gives the item
+    item: &'static str,
+    file: &'static str,
+    loc: Loc,
+    /// the hand-written model (theories/*.v)
+    hand: &'static str,
+    /// the hand-written model is a pure function, not a computation
+    pure_hand: bool,
+    required: bool,
+    /// per loop, the fuel the hand-written model gives it
+    fuel: &'static [&'static str],
+    /// `&[T]` parameters that are data outside the array
+    lists: &'static [&'static str],
+}
+
+const fn lib(key: &'static str, item: &'static str, required: bool) -> Unit {
+    Unit {
+        key,
+        item,
+        file: "src/lib.rs",
+        loc: Loc::Method("CircularBuffer", None, key),
+        hand: key,
+        pure_hand: false,
+        required,
+        fuel: &[],
+        lists: &[],
+    }
+}
+
+const fn u(key: &'static str, item: &'static str, file: &'static str, loc: Loc, hand: &'static str, pure_hand: bool) -> Unit {
+    Unit { key, item, file, loc, hand, pure_hand, required: false, fuel: &[], lists: &[] }
+}
+
+fn units() -> Vec<Unit> {
+    let mut v = vec![
+        Unit { loc: Loc::Free("add_mod"), ..lib("add_mod", "add_mod", true) },
+        Unit { loc: Loc::Free("sub_mod"), ..lib("sub_mod", "sub_mod", true) },
+    ];
+    for k in [
+        "len", "capacity", "is_empty", "is_full", "inc_start", "dec_start", "inc_size", "dec_size",
+        "front_maybe_uninit", "front_maybe_uninit_mut", "back_maybe_uninit", "back_maybe_uninit_mut",
+        "get_maybe_uninit", "get_maybe_uninit_mut",
+    ] {
+        v.push(lib(k, Box::leak(format!("CircularBuffer::{}", k).into_boxed_str()), true));
+    }
+    for k in [
+        "back", "back_mut", "front", "front_mut", "get", "get_mut", "nth_front", "nth_front_mut", "nth_back",
+        "nth_back_mut", "push_back", "try_push_back", "push_front", "try_push_front", "pop_back", "pop_front", "swap",
+        "swap_remove_back", "swap_remove_front", "drop_range", "truncate_back", "truncate_front", "clear", "remove",
+        "as_slices", "as_mut_slices", "slices_uninit_mut", "make_contiguous", "fill_spare", "fill", "fill_spare_with",
+        "fill_with", "drain", "range", "range_mut", "iter", "iter_mut",
+    ] {
+        let mut x = lib(k, Box::leak(format!("CircularBuffer::{}", k).into_boxed_str()), false);
+        match k {
+            "get" => x.hand = "get_",
+            "fill_spare" => x.fuel = &["Z.to_nat ({N} - {size})"],
+            "fill_spare_with" => x.fuel = &["Z.to_nat ({N} - {size})"],
+            "drain" => x.hand = "drain_over_range",
+            "range" => x.hand = "iter_over_range",
+            "range_mut" => x.hand = "iter_mut_over_range",
+            "iter" => x.hand = "iter_new",
+            "iter_mut" => x.hand = "iter_mut_new",
+            _ => {}
+        }
+        v.push(x);
+    }
+    const IT: &str = "src/iter.rs";
+    const DR: &str = "src/drain.rs";
+    v.extend([
+        u("translate_range_bounds", "translate_range_bounds", IT, Loc::Free("translate_range_bounds"), "translate_range_bounds", false),
+        u("slice_take", "slice_take@stable", IT, Loc::Free("slice_take"), "slice_take", false),
+        u("slice_take_mut", "slice_take_mut@stable", IT, Loc::Free("slice_take_mut"), "slice_take_mut", false),
+        u("slice_take_first", "slice_take_first@stable", IT, Loc::Free("slice_take_first"), "slice_take_first", true),
+        u("slice_take_first_mut", "slice_take_first_mut@stable", IT, Loc::Free("slice_take_first_mut"), "slice_take_first_mut", true),
+        u("slice_take_last", "slice_take_last@stable", IT, Loc::Free("slice_take_last"), "slice_take_last", true),
+        u("slice_take_last_mut", "slice_take_last_mut@stable", IT, Loc::Free("slice_take_last_mut"), "slice_take_last_mut", true),
+        u("Iter_empty", "Iter::empty", IT, Loc::Method("Iter", None, "empty"), "iter_empty", true),
+        u("Iter_new", "Iter::new", IT, Loc::Method("Iter", None, "new"), "iter_new", false),
+        u("Iter_advance_front_by", "Iter::advance_front_by", IT, Loc::Method("Iter", None, "advance_front_by"), "advance_front_by", false),
+        u("Iter_advance_back_by", "Iter::advance_back_by", IT, Loc::Method("Iter", None, "advance_back_by"), "advance_back_by", false),
+        u("Iter_over_range", "Iter::over_range", IT, Loc::Method("Iter", None, "over_range"), "iter_over_range", false),
+        u("Iter_next", "<Iter as Iterator>::next", IT, Loc::Method("Iter", Some("Iterator"), "next"), "iter_next", true),
+        u("Iter_next_back", "<Iter as DoubleEndedIterator>::next_back", IT, Loc::Method("Iter", Some("DoubleEndedIterator"), "next_back"), "iter_next_back", true),
+        u("Iter_len", "<Iter as ExactSizeIterator>::len", IT, Loc::Method("Iter", Some("ExactSizeIterator"), "len"), "iter_len", false),
+        u("Iter_clone", "<Iter as Clone>::clone", IT, Loc::Method("Iter", Some("Clone"), "clone"), "iter_clone", true),
+        u("Iter_default", "<Iter as Default>::default", IT, Loc::Method("Iter", Some("Default"), "default"), "iter_default", true),
+        u("IterMut_empty", "IterMut::empty", IT, Loc::Method("IterMut", None, "empty"), "iter_mut_empty", true),
+        u("IterMut_new", "IterMut::new", IT, Loc::Method("IterMut", None, "new"), "iter_mut_new", false),
+        u("IterMut_advance_front_by", "IterMut::advance_front_by", IT, Loc::Method("IterMut", None, "advance_front_by"), "advance_front_by", false),
+        u("IterMut_advance_back_by", "IterMut::advance_back_by", IT, Loc::Method("IterMut", None, "advance_back_by"), "advance_back_by", false),
+        u("IterMut_over_range", "IterMut::over_range", IT, Loc::Method("IterMut", None, "over_range"), "iter_mut_over_range", false),
+        u("IterMut_next", "<IterMut as Iterator>::next", IT, Loc::Method("IterMut", Some("Iterator"), "next"), "iter_mut_next", true),
+        u("IterMut_next_back", "<IterMut as DoubleEndedIterator>::next_back", IT, Loc::Method("IterMut", Some("DoubleEndedIterator"), "next_back"), "iter_mut_next_back", true),
+        u("IterMut_len", "<IterMut as ExactSizeIterator>::len", IT, Loc::Method("IterMut", Some("ExactSizeIterator"), "len"), "iter_mut_len", false),
+        u("IterMut_default", "<IterMut as Default>::default", IT, Loc::Method("IterMut", Some("Default"), "default"), "iter_mut_default", true),
+        u("IntoIter_new", "IntoIter::new", IT, Loc::Method("IntoIter", None, "new"), "", false),
+        u("IntoIter_next", "<IntoIter as Iterator>::next", IT, Loc::Method("IntoIter", Some("Iterator"), "next"), "into_iter_next", false),
+        u("IntoIter_next_back", "<IntoIter as DoubleEndedIterator>::next_back", IT, Loc::Method("IntoIter", Some("DoubleEndedIterator"), "next_back"), "into_iter_next_back", false),
+        u("IntoIter_len", "<IntoIter as ExactSizeIterator>::len", IT, Loc::Method("IntoIter", Some("ExactSizeIterator"), "len"), "into_iter_len", false),
+        u("CircularSlicePtr_new", "CircularSlicePtr::new", DR, Loc::Method("CircularSlicePtr", None, "new"), "csp_new", true),
+        u("CircularSlicePtr_as_ptr", "CircularSlicePtr::as_ptr", DR, Loc::Method("CircularSlicePtr", None, "as_ptr"), "csp_as_ptr", false),
+        u("CircularSlicePtr_as_mut_ptr", "CircularSlicePtr::as_mut_ptr", DR, Loc::Method("CircularSlicePtr", None, "as_mut_ptr"), "csp_as_ptr", false),
+        u("CircularSlicePtr_available_len", "CircularSlicePtr::available_len", DR, Loc::Method("CircularSlicePtr", None, "available_len"), "csp_available_len", false),
+        u("CircularSlicePtr_add", "CircularSlicePtr::add", DR, Loc::Method("CircularSlicePtr", None, "add"), "csp_add", false),
+        u("Drain_over_range", "Drain::over_range", DR, Loc::Method("Drain", None, "over_range"), "drain_over_range", false),
+        u("Drain_read", "Drain::read", DR, Loc::Method("Drain", None, "read"), "drain_read", false),
+        u("Drain_as_slices", "Drain::as_slices", DR, Loc::Method("Drain", None, "as_slices"), "drain_as_slices", false),
+        u("Drain_as_mut_slices", "Drain::as_mut_slices", DR, Loc::Method("Drain", None, "as_mut_slices"), "drain_as_mut_slices", false),
+        u("Drain_next", "<Drain as Iterator>::next", DR, Loc::Method("Drain", Some("Iterator"), "next"), "drain_next", false),
+        u("Drain_next_back", "<Drain as DoubleEndedIterator>::next_back", DR, Loc::Method("Drain", Some("DoubleEndedIterator"), "next_back"), "drain_next_back", false),
+        u("Drain_len", "<Drain as ExactSizeIterator>::len", DR, Loc::Method("Drain", Some("ExactSizeIterator"), "len"), "drain_len", true),
+        Unit { fuel: &["Z.to_nat {remaining}"], ..u("Drain_drop", "<Drain as Drop>::drop", DR, Loc::Method("Drain", Some("Drop"), "drop"), "drain_drop", false) },
+    ]);
+    const LB: &str = "src/lib.rs";
+    v.extend([
+        u("index", "<CircularBuffer as Index<usize>>::index", LB, Loc::Method("CircularBuffer", Some("Index"), "index"), "index", false),
+        u("index_mut", "<CircularBuffer as IndexMut<usize>>::index_mut", LB, Loc::Method("CircularBuffer", Some("IndexMut"), "index_mut"), "index_mut", false),
+        u("default", "<CircularBuffer as Default>::default", LB, Loc::Method("CircularBuffer", Some("Default"), "default"), "default_buf", false),
+        u("buf_drop", "<CircularBuffer as Drop>::drop", LB, Loc::Method("CircularBuffer", Some("Drop"), "drop"), "drop_buf", false),
+        Unit { lists: &["other"], ..lib("extend_from_slice", "CircularBuffer::extend_from_slice", false) },
+        Unit {
+            lists: &["src"],
+            ..u(
+                "write_uninit_slice_cloned",
+                "CircularBuffer::extend_from_slice::write_uninit_slice_cloned",
+                LB,
+                Loc::Nested("extend_from_slice", "write_uninit_slice_cloned"),
+                "write_uninit_slice_cloned",
+                false,
+            )
+        },
+    ]);
+    const IO: &str = "src/io.rs";
+    const EIO: &str = "src/embedded_io.rs";
+    for (pfx, file, tw, tr_, tb, iw, ir_, ib) in [
+        ("io", IO, "Write", "Read", "BufRead", "Write", "Read", "BufRead"),
+        ("eio", EIO, "embedded_io::Write", "embedded_io::Read", "embedded_io::BufRead", "embedded_io::Write", "embedded_io::Read", "embedded_io::BufRead"),
+        ("aio", EIO, "embedded_io_async::Write", "embedded_io_async::Read", "embedded_io_async::BufRead", "embedded_io_async::Write", "embedded_io_async::Read", "embedded_io_async::BufRead"),
+    ] {
+        for (name, tr, itr) in [("write", tw, iw), ("flush", tw, iw), ("read", tr_, ir_), ("fill_buf", tb, ib), ("consume", tb, ib)] {
+            let key: &'static str = Box::leak(format!("{}_{}", pfx, name).into_boxed_str());
+            let item: &'static str = Box::leak(format!("<CircularBuffer as {}>::{}", itr, name).into_boxed_str());
+            let lists: &'static [&'static str] = match name {
+                "write" => &["src"],
+                "read" => &["dst"],
+                _ => &[],
+            };
+            v.push(Unit { lists, ..u(key, item, file, Loc::Method("CircularBuffer", Some(tr), name), key, false) });
+        }
+    }
+    v
+}
+
+struct Src {
+    sig: syn::Signature,
+    attrs: Vec<syn::Attribute>,
+    block: syn::Block,
     span: Span,
-    method: bool,
+    /// of the impl
+    owner: Option<String>,
+    impl_generics: Option<syn::Generics>,
+    assoc: HashMap<String, syn::Type>,
 }
 
 fn collect_idents(ts: proc_macro2::TokenStream, out: &mut HashSet<String>) {
@@ -66,81 +225,281 @@ fn collect_idents(ts: proc_macro2::TokenStream, out: &mut HashSet<String>) {
     }
 }
 
-fn norm_tokens(ts: impl quote::ToTokens) -> String {
-    ts.to_token_stream().to_string().split_whitespace().collect::<Vec<_>>().join(" ")
+fn stable_variant(attrs: &[syn::Attribute]) -> Option<bool> {
+    // Some(true): only without the feature; Some(false): only with it; None: both
+    for a in attrs {
+        let t = norm_tokens(a);
+        if t == "# [cfg (not (feature = \"unstable\"))]" {
+            return Some(true);
+        }
+        if t == "# [cfg (feature = \"unstable\")]" {
+            return Some(false);
+        }
+    }
+    None
 }
 
-/// is this `impl<const N: usize, T> CircularBuffer<N, T>` (inherent)?
-fn is_buffer_impl(im: &syn::ItemImpl) -> bool {
-    if im.trait_.is_some() {
-        return false;
+fn trait_name(p: &syn::Path) -> String {
+    p.segments.iter().map(|s| s.ident.to_string()).collect::<Vec<_>>().join("::")
+}
+
+fn find(file: &syn::File, loc: Loc, parents: &HashMap<String, Src>) -> Result<Src, String> {
+    let mut hits: Vec<Src> = vec![];
+    match loc {
+        Loc::Free(name) => {
+            for it in &file.items {
+                if let Item::Fn(f) = it {
+                    if f.sig.ident == name && stable_variant(&f.attrs) != Some(false) {
+                        hits.push(Src {
+                            sig: f.sig.clone(),
+                            attrs: f.attrs.clone(),
+                            block: (*f.block).clone(),
+                            span: f.span(),
+                            owner: None,
+                            impl_generics: None,
+                            assoc: HashMap::new(),
+                        });
+                    }
+                }
+            }
+        }
+        Loc::Method(ty, tr, name) => {
+            for it in &file.items {
+                let im = match it {
+                    Item::Impl(im) => im,
+                    _ => continue,
+                };
+                let tn = match &*im.self_ty {
+                    syn::Type::Path(p) => p.path.segments.last().map(|s| s.ident.to_string()),
+                    _ => None,
+                };
+                if tn.as_deref() != Some(ty) {
+                    continue;
+                }
+                let itr = im.trait_.as_ref().map(|(_, p, _)| trait_name(p));
+                if itr.as_deref() != tr {
+                    continue;
+                }
+                // `Self::Item` in an impl of DoubleEndedIterator is the Item of the Iterator impl
+                let mut assoc = HashMap::new();
+                for it2 in &file.items {
+                    if let Item::Impl(im2) = it2 {
+                        let tn2 = match &*im2.self_ty {
+                            syn::Type::Path(p) => p.path.segments.last().map(|s| s.ident.to_string()),
+                            _ => None,
+                        };
+                        if tn2.as_deref() != Some(ty) {
+                            continue;
+                        }
+                        for ii in &im2.items {
+                            if let syn::ImplItem::Type(t) = ii {
+                                let k = t.ident.to_string();
+                                let same = std::ptr::eq(im2, im);
+                                if same || !assoc.contains_key(&k) {
+                                    assoc.insert(k, t.ty.clone());
+                                }
+                            }
+                        }
+                    }
+                }
+                for ii in &im.items {
+                    if let syn::ImplItem::Fn(f) = ii {
+                        if f.sig.ident == name && stable_variant(&f.attrs) != Some(false) {
+                            hits.push(Src {
+                                sig: f.sig.clone(),
+                                attrs: f.attrs.clone(),
+                                block: f.block.clone(),
+                                span: f.span(),
+                                owner: Some(ty.to_string()),
+                                impl_generics: Some(im.generics.clone()),
+                                assoc: assoc.clone(),
+                            });
+                        }
+                    }
+                }
+            }
+        }
+        Loc::Nested(parent, name) => {
+            let p = parents.get(parent).ok_or_else(|| format!("the enclosing function `{}` was not found", parent))?;
+            for st in &p.block.stmts {
+                if let syn::Stmt::Item(Item::Fn(f)) = st {
+                    if f.sig.ident == name && stable_variant(&f.attrs) != Some(false) {
+                        hits.push(Src {
+                            sig: f.sig.clone(),
+                            attrs: f.attrs.clone(),
+                            block: (*f.block).clone(),
+                            span: f.span(),
+                            owner: None,
+                            impl_generics: None,
+                            assoc: HashMap::new(),
+                        });
+                    }
+                }
+            }
+        }
     }
-    match &*im.self_ty {
-        syn::Type::Path(p) => p.path.segments.last().map(|s| s.ident == "CircularBuffer").unwrap_or(false),
-        _ => false,
+    match hits.len() {
+        0 => Err("no such function".into()),
+        1 => Ok(hits.pop().unwrap()),
+        n => Err(format!("{} definitions", n)),
     }
+}
+
+/// the generic parameters of a function and of its impl: which are ranges, is `N` the capacity,
+/// is there a closure parameter
+fn generics_of(gs: &[&syn::Generics]) -> Res<(Vec<String>, bool, Vec<String>)> {
+    let mut bounds: Vec<String> = vec![];
+    let mut closures: Vec<String> = vec![];
+    let mut has_n = false;
+    let mut check_bounds = |name: &str, bs: Vec<String>, sp: Span| -> Res<()> {
+        for b in bs {
+            match b.as_str() {
+                "RangeBounds < usize >" => bounds.push(name.to_string()),
+                "FnMut () -> T" if name == "F" => closures.push(name.to_string()),
+                "Clone" | "Copy" if name == "T" => {}
+                other => return unsupported(&format!("bound `{}: {}`", name, other), sp),
+            }
+        }
+        Ok(())
+    };
+    for g in gs {
+        for p in &g.params {
+            match p {
+                syn::GenericParam::Lifetime(_) => {}
+                syn::GenericParam::Const(c) if c.ident == "N" && norm_tokens(&c.ty) == "usize" => has_n = true,
+                syn::GenericParam::Type(t) => {
+                    let bs: Vec<String> = t.bounds.iter().map(|b| norm_tokens(b)).collect();
+                    check_bounds(&t.ident.to_string(), bs, t.span())?;
+                }
+                other => return unsupported("generic parameter", other.span()),
+            }
+        }
+        if let Some(w) = &g.where_clause {
+            for p in &w.predicates {
+                match p {
+                    syn::WherePredicate::Type(t) => {
+                        let name = norm_tokens(&t.bounded_ty);
+                        let bs: Vec<String> = t.bounds.iter().map(|b| norm_tokens(b)).collect();
+                        check_bounds(&name, bs, t.span())?;
+                    }
+                    other => return unsupported("where predicate", other.span()),
+                }
+            }
+        }
+    }
+    Ok((bounds, has_n, closures))
 }
 
 /// the signature of a function, in model types
-fn signature(name: &str, s: &Src) -> Res<Sig> {
-    for a in s.attrs {
+fn signature(un: &Unit, s: &Src) -> Res<FnInfo> {
+    for a in &s.attrs {
         let p = a.path();
-        if !(p.is_ident("inline") || p.is_ident("doc") || p.is_ident("must_use")) {
-            return unsupported(&format!("attribute `{}`", norm_tokens(a)), a.span());
+        let t = norm_tokens(a);
+        if !(p.is_ident("inline") || p.is_ident("doc") || p.is_ident("must_use") || p.is_ident("allow")
+            || t == "# [cfg (not (feature = \"unstable\"))]")
+        {
+            return unsupported(&format!("attribute `{}`", t), a.span());
         }
     }
-    let g = s.sig;
-    if g.asyncness.is_some() || g.abi.is_some() || g.variadic.is_some() {
-        return unsupported("async / extern / variadic function", g.span());
+    let g = &s.sig;
+    if g.abi.is_some() || g.variadic.is_some() {
+        return unsupported("extern / variadic function", g.span());
     }
-    if !g.generics.params.is_empty() || g.generics.where_clause.is_some() {
-        return unsupported("generic function", g.generics.span());
+    if g.asyncness.is_some() && !un.key.starts_with("aio_") {
+        return unsupported("async function", g.span());
     }
+    let mut gs: Vec<&syn::Generics> = vec![&g.generics];
+    if let Some(ig) = &s.impl_generics {
+        gs.push(ig);
+    }
+    let (bounds_params, has_n, closures) = generics_of(&gs)?;
+    let bytes = un.file == "src/io.rs" || un.file == "src/embedded_io.rs";
+    let cx = TyCtx {
+        owner: s.owner.clone(),
+        bounds_params,
+        assoc: s.assoc.clone(),
+        list_params: un.lists.iter().map(|s| s.to_string()).collect(),
+        bytes,
+    };
     let mut params = vec![];
-    let mut has_self = false;
+    let mut self_ty = None;
+    let mut self_mut = false;
     for a in &g.inputs {
         match a {
             syn::FnArg::Receiver(r) => {
-                if !s.method || r.reference.is_none() || r.colon_token.is_some() {
-                    return unsupported("receiver other than `&self` / `&mut self`", r.span());
+                if r.colon_token.is_some() {
+                    return unsupported("typed receiver", r.span());
                 }
-                has_self = true;
+                let owner = s.owner.clone().ok_or_else(|| format!("{}: receiver outside an impl", at(r.span())))?;
+                let t = match owner.as_str() {
+                    "CircularBuffer" | "IntoIter" => Ty::Buf,
+                    o if rec_coq(o).is_some() => Ty::Rec(o.to_string()),
+                    o => return unsupported(&format!("receiver of type {}", o), r.span()),
+                };
+                if r.reference.is_none() && (t == Ty::Buf || owner != "CircularSlicePtr") {
+                    return unsupported("receiver by value of a type that is not Copy", r.span());
+                }
+                self_mut = r.reference.is_some() && r.mutability.is_some();
+                self_ty = Some(t);
             }
             syn::FnArg::Typed(pt) => {
                 if !pt.attrs.is_empty() {
                     return unsupported("attribute on a parameter", pt.span());
                 }
                 let n = match &*pt.pat {
-                    Pat::Ident(pi) if pi.by_ref.is_none() && pi.mutability.is_none() && pi.subpat.is_none() => {
-                        pi.ident.to_string()
-                    }
+                    Pat::Ident(pi) if pi.by_ref.is_none() && pi.subpat.is_none() => pi.ident.to_string(),
                     other => return unsupported("parameter pattern", other.span()),
                 };
-                let t = type_of(&pt.ty)?;
-                if t == Ty::Range {
-                    // a range parameter is its two bounds
-                    params.push((n, t));
+                if closures.iter().any(|c| norm_tokens(&pt.ty) == *c) {
+                    params.push(Param { name: n, ty: Ty::Closure, by_mut_ref: false });
+                    continue;
+                }
+                if bytes && norm_tokens(&pt.ty) == "& mut [u8]" {
+                    // the bytes are written: the function hands back the new contents
+                    params.push(Param { name: n, ty: Ty::List, by_mut_ref: true });
+                    continue;
+                }
+                if mut_ref_to_slice(&pt.ty) {
+                    params.push(Param { name: n, ty: Ty::Slice, by_mut_ref: true });
+                    continue;
+                }
+                let mut t = type_of(&pt.ty, &cx)?;
+                if cx.list_params.contains(&n) {
+                    match (&t, norm_tokens(&pt.ty).as_str()) {
+                        (Ty::Slice, "& [T]") | (Ty::List, _) => t = Ty::List,
+                        _ => return unsupported(&format!("parameter `{}` expected to be a slice outside the array", n), pt.ty.span()),
+                    }
+                }
+                if matches!(t, Ty::Range | Ty::Bounds | Ty::Buf | Ty::Closure) {
+                    params.push(Param { name: n, ty: t, by_mut_ref: false });
                     continue;
                 }
                 if matches!(t, Ty::Unit | Ty::Ptr) || t.coq().is_err() {
                     return unsupported(&format!("parameter `{}` of type {}", n, t.show()), pt.ty.span());
                 }
-                params.push((n, t));
+                params.push(Param { name: n, ty: t, by_mut_ref: false });
             }
         }
     }
-    if s.method != has_self {
-        return unsupported("associated function without a `self` receiver", g.span());
-    }
     let ret = match &g.output {
-        syn::ReturnType::Type(_, t) => type_of(t)?,
+        syn::ReturnType::Type(_, t) => type_of(t, &cx)?,
         syn::ReturnType::Default => Ty::Unit,
     };
     if ret.coq().is_err() {
         return unsupported(&format!("return type {}", ret.show()), g.output.span());
     }
-    let _ = name;
-    Ok(Sig { params, ret, method: s.method })
+    let name = g.ident.to_string();
+    Ok(FnInfo {
+        key: un.key.to_string(),
+        owner: s.owner.clone(),
+        name,
+        self_ty,
+        self_mut,
+        params,
+        ret,
+        has_n,
+        file: un.file.to_string(),
+    })
 }
 
 struct Done {
@@ -150,6 +509,8 @@ struct Done {
     ext_calls: Vec<String>,
     params: Vec<String>,
     ret: String,
+    loops: Vec<String>,
+    info: DoneInfo,
 }
 
 enum Attempt {
@@ -158,98 +519,201 @@ enum Attempt {
     Fail(String),
 }
 
+/// the names of the model that occur in generated text, with the module they come from
+fn qualify(text: &str) -> String {
+    const TABLE: &[(&str, &str)] = &[
+        ("iter", "Iter.iter"), ("mkI", "Iter.mkI"), ("it_right", "Iter.it_right"), ("it_left", "Iter.it_left"),
+        ("bound", "Iter.bound"), ("BIncl", "Iter.BIncl"), ("BExcl", "Iter.BExcl"), ("BUnb", "Iter.BUnb"),
+        ("drain", "Drain.drain"), ("mkD", "Drain.mkD"), ("d_buf_size", "Drain.d_buf_size"), ("d_rs", "Drain.d_rs"),
+        ("d_re", "Drain.d_re"), ("d_is", "Drain.d_is"), ("d_ie", "Drain.d_ie"), ("csp", "Drain.csp"),
+        ("mkC", "Drain.mkC"), ("c_len", "Drain.c_len"), ("c_off", "Drain.c_off"), ("slice_read", "Io.slice_read"),
+        ("zlen", "Buf.zlen"),
+    ];
+    let mut out = String::new();
+    let mut tok = String::new();
+    let flush = |tok: &mut String, out: &mut String| {
+        if !tok.is_empty() {
+            match TABLE.iter().find(|(a, _)| a == tok) {
+                Some((_, b)) => out.push_str(b),
+                None => out.push_str(tok),
+            }
+            tok.clear();
+        }
+    };
+    for c in text.chars() {
+        if c.is_ascii_alphanumeric() || c == '_' || c == '\'' || c == '.' && !tok.is_empty() {
+            tok.push(c);
+        } else {
+            flush(&mut tok, &mut out);
+            out.push(c);
+        }
+    }
+    flush(&mut tok, &mut out);
+    out
+}
+
 fn attempt(
-    name: &str,
+    un: &Unit,
     s: &Src,
-    sigs: &HashMap<String, Sig>,
-    done: &HashSet<String>,
-    exts: &HashMap<&'static str, External>,
+    fns: &HashMap<String, FnInfo>,
+    index: &HashMap<(Option<String>, String), String>,
+    done: &HashMap<String, DoneInfo>,
 ) -> Attempt {
-    let sig = match sigs.get(name) {
+    let me = match fns.get(un.key) {
         Some(s) => s.clone(),
         None => return Attempt::Fail("no usable signature".into()),
     };
     let mut used = HashSet::new();
-    collect_idents(quote::ToTokens::to_token_stream(s.sig), &mut used);
-    collect_idents(quote::ToTokens::to_token_stream(s.block), &mut used);
-    let mut t = Tr {
-        sigs,
-        done,
-        exts,
-        used,
-        counter: 0,
-        ret_ty: sig.ret.clone(),
-        method: sig.method,
-        can_return: true,
-        calls: Default::default(),
-        ext_calls: Default::default(),
-        need: None,
-    };
-    let mut env: Env = HashMap::new();
-    let mut params = vec![];
-    let mut nparam = 0;
-    for a in &s.sig.inputs {
-        if let syn::FnArg::Typed(pt) = a {
-            if let Pat::Ident(pi) = &*pt.pat {
-                let ty = sig.params[nparam].1.clone();
-                nparam += 1;
-                let cn = match t.coq_ident(&pi.ident) {
-                    Ok(n) => n,
-                    Err(e) => return Attempt::Fail(e),
-                };
-                if ty == Ty::Range {
-                    let base = cn.trim_end_matches('\'').to_string();
+    collect_idents(quote::ToTokens::to_token_stream(&s.sig), &mut used);
+    collect_idents(quote::ToTokens::to_token_stream(&s.block), &mut used);
+    // first with every `&mut` parameter handed back; then only those that can change
+    let mut self_out = me.self_mut && matches!(me.self_ty, Some(Ty::Rec(_)));
+    let mut outs: Vec<usize> = me.params.iter().enumerate().filter(|(_, p)| p.by_mut_ref).map(|(k, _)| k).collect();
+    for round in 0..2 {
+        set_file(un.file);
+        let mut t = Tr {
+            fns,
+            index,
+            done,
+            me: me.clone(),
+            used: used.clone(),
+            counter: 0,
+            can_return: true,
+            calls: Default::default(),
+            ext_calls: Default::default(),
+            need: None,
+            self_out,
+            outs: outs.clone(),
+            self_changed: false,
+            outs_changed: Default::default(),
+            live: vec![],
+            nested: HashMap::new(),
+            aux: vec![],
+            loops: 0,
+            fuel: un.fuel,
+            harmless: true,
+            user: false,
+            in_loop: false,
+            depth: 0,
+        };
+        let mut env: Env = HashMap::new();
+        let mut params = vec![];
+        let mut ptypes: Vec<String> = vec![];
+        match &me.self_ty {
+            Some(Ty::Buf) => {
+                let tm = if me.owner.as_deref() == Some("IntoIter") { "<into_iter>" } else { "<buffer>" };
+                env.insert("self".into(), Val::atom(tm, Ty::Buf));
+            }
+            Some(t @ Ty::Rec(_)) => {
+                env.insert("self".into(), Val::atom("self'", t.clone()));
+                let c = t.coq().expect("record");
+                params.push(format!("(self' : {})", c));
+                ptypes.push(c);
+            }
+            _ => {}
+        }
+        for p in &me.params {
+            let id = syn::Ident::new(&p.name, s.span);
+            let cn = match t.coq_ident(&id) {
+                Ok(n) => n,
+                Err(e) => return Attempt::Fail(e),
+            };
+            let base = cn.trim_end_matches('\'').to_string();
+            let v = match &p.ty {
+                Ty::Range => {
                     let (a, b) = (format!("{}_start'", base), format!("{}_end'", base));
                     params.push(format!("({} : Z) ({} : Z)", a, b));
-                    let v = Val {
-                        tm: format!("({}, {})", a, b),
-                        ty: Ty::Range,
-                        atomic: true,
-                        parts: Some(vec![Val::atom(a, Ty::Usize), Val::atom(b, Ty::Usize)]),
-                        ptr_base: false,
-                    };
-                    env.insert(pi.ident.to_string(), v);
-                    continue;
+                    ptypes.extend(["Z".to_string(), "Z".to_string()]);
+                    expr::range_val(Val::atom(a, Ty::Usize), Val::atom(b, Ty::Usize))
                 }
-                if env.insert(pi.ident.to_string(), Val::atom(cn.clone(), ty.clone())).is_some() {
-                    return Attempt::Fail(format!("{}: duplicate parameter", at(pt.span())));
+                Ty::Bounds => {
+                    let (a, b) = (format!("{}_sb'", base), format!("{}_eb'", base));
+                    params.push(format!("({} : bound) ({} : bound)", a, b));
+                    ptypes.extend(["bound".to_string(), "bound".to_string()]);
+                    expr::bounds_val(Val::atom(a, Ty::Bound), Val::atom(b, Ty::Bound))
                 }
-                params.push(format!("({} : {})", cn, ty.coq().expect("checked in signature")));
+                Ty::Buf => Val::atom("<buffer>", Ty::Buf),
+                Ty::Closure => Val::atom("<closure>", Ty::Closure),
+                ty => {
+                    let c = ty.coq().expect("checked in signature");
+                    params.push(format!("({} : {})", cn, c));
+                    ptypes.push(c);
+                    if *ty == Ty::Elem {
+                        t.live.push(p.name.clone());
+                    }
+                    Val::atom(cn.clone(), ty.clone())
+                }
+            };
+            if env.insert(p.name.clone(), v).is_some() {
+                return Attempt::Fail(format!("{}: duplicate parameter", at(s.span)));
             }
         }
-    }
-    let body = match t.block(&s.block.stmts, env, true) {
-        Ok((b, _)) => b,
-        Err(e) => {
-            return match t.need.take() {
-                Some(g) => Attempt::Need(g, e),
-                None => Attempt::Fail(e),
+        let body = match t.block(&s.block.stmts, env, true) {
+            Ok((b, _, _)) => b,
+            Err(e) => {
+                return match t.need.take() {
+                    Some(g) => Attempt::Need(g, e),
+                    None => Attempt::Fail(e),
+                }
             }
+        };
+        let new_self_out = self_out && t.self_changed;
+        let new_outs: Vec<usize> = outs.iter().filter(|k| t.outs_changed.contains(k)).cloned().collect();
+        if round == 0 && (new_self_out != self_out || new_outs != outs) {
+            self_out = new_self_out;
+            outs = new_outs;
+            continue;
         }
-    };
-    if !body.ty().compat(&sig.ret) {
-        return Attempt::Fail(format!(
-            "{}: the body yields {}, expected {}",
-            at(s.block.span()), body.ty().show(), sig.ret.show()
-        ));
+        // the type of what the function yields
+        let mut tys = vec![];
+        if self_out {
+            tys.push(me.self_ty.clone().unwrap());
+        }
+        for k in &outs {
+            tys.push(me.params[*k].ty.clone());
+        }
+        if me.ret != Ty::Unit || tys.is_empty() {
+            tys.push(me.ret.clone());
+        }
+        let full = if tys.len() == 1 { tys[0].clone() } else { Ty::Tuple(tys) };
+        if !body.ty().compat(&full) {
+            return Attempt::Fail(format!(
+                "{}: the body yields {}, expected {}",
+                at(s.block.span()), body.ty().show(), full.show()
+            ));
+        }
+        let body = simplify(body);
+        let (a, b) = (s.span.start().line, s.span.end().line);
+        let ret = match full.coq() {
+            Ok(r) => r,
+            Err(e) => return Attempt::Fail(e),
+        };
+        let mut text = String::new();
+        for x in &t.aux {
+            let (head, rest) = x.split_once('\n').unwrap_or((x.as_str(), ""));
+            text.push_str(head);
+            text.push('\n');
+            text.push_str(&qualify(rest));
+            text.push('\n');
+        }
+        writeln!(text, "(* fn {}: {}:{}-{} *)", un.key, un.file, a, b).unwrap();
+        let ps = if params.is_empty() { String::new() } else { format!(" {}", params.join(" ")) };
+        let rt = if ret.contains(' ') { format!("({})", ret) } else { ret.clone() };
+        let def = format!("Definition gen_{}{} : M {} :=\n{}.\n", un.key, ps, rt, render(&body, 2));
+        text.push_str(&qualify(&def));
+        let loops: Vec<String> = (1..=t.loops).map(|k| format!("gen_{}_loop{}", un.key, k)).collect();
+        return Attempt::Ok(Done {
+            text,
+            lines: (a, b),
+            calls: t.calls.iter().cloned().collect(),
+            ext_calls: t.ext_calls.iter().cloned().collect(),
+            params: ptypes,
+            ret,
+            loops,
+            info: DoneInfo { self_out, outs, harmless: t.harmless, user: t.user, external: None },
+        });
     }
-    let body = simplify(body);
-    let (a, b) = (s.span.start().line, s.span.end().line);
-    let ret = sig.ret.coq().expect("checked in signature");
-    let mut text = String::new();
-    writeln!(text, "(* fn {}: src/lib.rs:{}-{} *)", name, a, b).unwrap();
-    let ps = if params.is_empty() { String::new() } else { format!(" {}", params.join(" ")) };
-    let rt = if ret.contains(' ') { format!("({})", ret) } else { ret.clone() };
-    writeln!(text, "Definition gen_{}{} : M {} :=", name, ps, rt).unwrap();
-    writeln!(text, "{}.", render(&body, 2)).unwrap();
-    Attempt::Ok(Done {
-        text,
-        lines: (a, b),
-        calls: t.calls.into_iter().collect(),
-        ext_calls: t.ext_calls.into_iter().collect(),
-        params: sig.params.iter().flat_map(|(_, t)| if *t == Ty::Range { vec!["Z".to_string(), "Z".into()] } else { vec![t.coq().unwrap()] }).collect(),
-        ret,
-    })
+    Attempt::Fail("internal: the set of parameters handed back did not settle".into())
 }
 
 const PRELUDE: &str = "\
@@ -270,6 +734,27 @@ Definition gen_swap_nonoverlapping (p q : Z) : M unit :=
 Definition gen_rotate_left (k : Z) : M unit :=
   n <- get_cap;;
   if k <=? n then f <- get_items;; set_items (s_rotate_left f n k) else panic PBounds.
+
+(* <Range<usize> as Iterator>::next / DoubleEndedIterator::next_back / ExactSizeIterator::len:
+   the new bounds and the item *)
+Definition gen_range_next (a b : Z) : Z * Z * option Z :=
+  if a <? b then (a + 1, b, Some a) else (a, b, None).
+Definition gen_range_next_back (a b : Z) : Z * Z * option Z :=
+  if a <? b then (a, b - 1, Some (b - 1)) else (a, b, None).
+Definition gen_range_len (a b : Z) : Z := if a <? b then b - a else 0.
+
+(* <[T]>::split_first / split_last on a view of the array: the slot and the rest *)
+Definition gen_split_first (sl : slice) : option (Z * slice) :=
+  if 0 <? slen sl then Some (soff sl, mkS (soff sl + 1) (slen sl - 1)) else None.
+Definition gen_split_last (sl : slice) : option (Z * slice) :=
+  if 0 <? slen sl then Some (soff sl + slen sl - 1, mkS (soff sl) (slen sl - 1)) else None.
+
+(* a struct whose base pointer the model does not represent can only be built on the
+   first slot of the array; anything else is outside the model and flagged *)
+Definition gen_repr_guard (c : bool) : M unit := if c then ret tt else panic PMemFault.
+
+(* &x[k..] / &x[..k] on data outside the array *)
+Definition gen_bounds_check (c : bool) : M unit := if c then ret tt else panic PBounds.
 
 ";
 
@@ -293,34 +778,66 @@ fn json_list(v: &[String]) -> String {
     format!("[{}]", v.iter().map(|s| json_str(s)).collect::<Vec<_>>().join(", "))
 }
 
-/// the struct must be what the model's `cbuf` says it is
-fn check_struct(file: &syn::File) -> Res<()> {
-    for it in &file.items {
-        if let Item::Struct(s) = it {
-            if s.ident == "CircularBuffer" {
-                let got = match &s.fields {
-                    syn::Fields::Named(n) => n
-                        .named
-                        .iter()
-                        .map(|f| format!("{}: {}", f.ident.as_ref().unwrap(), norm_tokens(&f.ty)))
-                        .collect::<Vec<_>>(),
-                    _ => vec![],
-                };
-                let want = ["size: usize", "start: usize", "items: [MaybeUninit < T > ; N]"];
-                if got != want {
-                    return Err(format!(
-                        "{}: struct CircularBuffer has fields [{}], the model expects [{}]",
-                        at(s.span()), got.join(", "), want.join(", ")
-                    ));
-                }
-                if norm_tokens(&s.generics) != "< const N : usize , T >" {
-                    return Err(format!("{}: struct CircularBuffer has unexpected generics", at(s.span())));
-                }
-                return Ok(());
+/// the structs must be what the model's records say they are
+fn check_structs(files: &HashMap<&'static str, syn::File>) -> Res<()> {
+    let want: &[(&str, &str, &[&str], &str)] = &[
+        ("src/lib.rs", "CircularBuffer", &["size: usize", "start: usize", "items: [MaybeUninit < T > ; N]"], "< const N : usize , T >"),
+        ("src/iter.rs", "IntoIter", &["inner: CircularBuffer < N , T >"], "< const N : usize , T >"),
+    ];
+    for (file, name, fields, generics) in want {
+        set_file(file);
+        let f = files.get(file).ok_or_else(|| format!("{}: not read", file))?;
+        let s = f
+            .items
+            .iter()
+            .find_map(|it| match it {
+                Item::Struct(s) if s.ident == name => Some(s),
+                _ => None,
+            })
+            .ok_or_else(|| format!("{}: struct {} not found", file, name))?;
+        let got = match &s.fields {
+            syn::Fields::Named(n) => {
+                n.named.iter().map(|f| format!("{}: {}", f.ident.as_ref().unwrap(), norm_tokens(&f.ty))).collect::<Vec<_>>()
             }
+            _ => vec![],
+        };
+        if got != *fields {
+            return Err(format!(
+                "{}: struct {} has fields [{}], the model expects [{}]",
+                at(s.span()), name, got.join(", "), fields.join(", ")
+            ));
+        }
+        if norm_tokens(&s.generics) != *generics {
+            return Err(format!("{}: struct {} has unexpected generics", at(s.span()), name));
         }
     }
-    Err("src/lib.rs: struct CircularBuffer not found".into())
+    for (file, name) in [("src/iter.rs", "Iter"), ("src/iter.rs", "IterMut"), ("src/drain.rs", "Drain"), ("src/drain.rs", "CircularSlicePtr")] {
+        set_file(file);
+        let f = files.get(file).ok_or_else(|| format!("{}: not read", file))?;
+        let s = f
+            .items
+            .iter()
+            .find_map(|it| match it {
+                Item::Struct(s) if s.ident == name => Some(s),
+                _ => None,
+            })
+            .ok_or_else(|| format!("{}: struct {} not found", file, name))?;
+        let got = match &s.fields {
+            syn::Fields::Named(n) => {
+                n.named.iter().map(|f| format!("{}: {}", f.ident.as_ref().unwrap(), norm_tokens(&f.ty))).collect::<Vec<_>>()
+            }
+            _ => vec![],
+        };
+        let sc = schema(name).expect("schema");
+        let want: Vec<String> = sc.fields.iter().map(|(n, t, _)| format!("{}: {}", n, t)).collect();
+        if got != want {
+            return Err(format!(
+                "{}: struct {} has fields [{}], the model's record expects [{}]",
+                at(s.span()), name, got.join(", "), want.join(", ")
+            ));
+        }
+    }
+    Ok(())
 }
 
 /// `slice_assume_init_ref` / `_mut` are rendered as the identity: they must be
@@ -338,6 +855,7 @@ fn check_assume_init(file: &syn::File) -> Res<()> {
             "unsafe fn slice_assume_init_mut < T > (slice : & mut [MaybeUninit < T >]) -> & mut [T]",
         ),
     ];
+    set_file("src/lib.rs");
     for (name, body, sig) in want {
         let f = file
             .items
@@ -357,10 +875,11 @@ fn check_assume_init(file: &syn::File) -> Res<()> {
     Ok(())
 }
 
-/// the names to which the translator gives a fixed meaning must have it:
-/// `mem`, `ptr`, `MaybeUninit`, `Range` are core's, and nothing at the crate
-/// root redefines a prelude name or an assertion macro
-fn check_names(file: &syn::File) -> Res<()> {
+/// the names to which the translator gives a fixed meaning must have it in this file:
+/// the names of `core_of` are core's (when the file imports them at all), and nothing at the
+/// root of the file redefines a prelude name or an assertion macro
+fn check_names(path: &str, file: &syn::File, core_of: &[(&str, &[&str], bool)]) -> Res<()> {
+    set_file(path);
     fn leaves(t: &syn::UseTree, prefix: &str, out: &mut Vec<(String, String, Span)>) -> Res<()> {
         match t {
             syn::UseTree::Path(p) => leaves(&p.tree, &format!("{}{}::", prefix, p.ident), out),
@@ -373,7 +892,7 @@ fn check_names(file: &syn::File) -> Res<()> {
                 Ok(())
             }
             syn::UseTree::Glob(g) => Err(format!(
-                "{}: glob import `{}*` at the crate root (it could redefine any name the translator relies on)",
+                "{}: glob import `{}*` at the root of the file (it could redefine any name the translator relies on)",
                 at(g.span()), prefix
             )),
             syn::UseTree::Group(g) => {
@@ -409,28 +928,25 @@ fn check_names(file: &syn::File) -> Res<()> {
         }
     }
     const FIXED: &[&str] = &[
-        "Some", "None", "Ok", "Err", "Option", "Result", "usize", "bool", "T", "N", "assert", "debug_assert",
-        "assert_eq", "assert_ne", "debug_assert_eq", "debug_assert_ne",
-    ];
-    let core_of: &[(&str, &[&str])] = &[
-        ("mem", &["core::mem", "std::mem"]),
-        ("ptr", &["core::ptr", "std::ptr"]),
-        ("MaybeUninit", &["core::mem::MaybeUninit", "std::mem::MaybeUninit"]),
-        ("Range", &["core::ops::Range", "std::ops::Range"]),
+        "Some", "None", "Ok", "Err", "Option", "usize", "bool", "T", "N", "assert", "debug_assert",
+        "assert_eq", "assert_ne", "debug_assert_eq", "debug_assert_ne", "unimplemented", "drop",
     ];
     for (name, path, sp) in &decl {
-        if FIXED.contains(&name.as_str()) {
-            return Err(format!("{}: the crate root declares `{}` ({}), a name the translator gives a fixed meaning", at(*sp), name, path));
+        if FIXED.contains(&name.as_str()) || (name == "Result" && !path.ends_with("io::Result")) {
+            return Err(format!("{}: the file declares `{}` ({}), a name the translator gives a fixed meaning", at(*sp), name, path));
         }
     }
-    for (name, ok) in core_of {
+    for (name, ok, must) in core_of {
         let here: Vec<_> = decl.iter().filter(|(n, _, _)| n == name).collect();
-        if here.len() != 1 || !ok.contains(&here[0].1.as_str()) {
-            return Err(format!(
-                "src/lib.rs: `{}` must be imported exactly once, as {}; found [{}]",
-                name, ok[0], here.iter().map(|(_, p, _)| p.clone()).collect::<Vec<_>>().join(", ")
-            ));
+        // the same import under two cfgs counts once
+        let paths: HashSet<&str> = here.iter().map(|h| h.1.as_str()).collect();
+        if (paths.is_empty() && !*must) || (paths.len() == 1 && ok.contains(paths.iter().next().unwrap())) {
+            continue;
         }
+        return Err(format!(
+            "{}: `{}` must be imported as {}; found [{}]",
+            path, name, ok[0], here.iter().map(|(_, p, _)| p.clone()).collect::<Vec<_>>().join(", ")
+        ));
     }
     Ok(())
 }
@@ -458,115 +974,171 @@ fn run() -> Res<i32> {
         return Err("usage: rs2coq_core <repo> <out.v> [--only f,g,...] [--strict]".into());
     }
     let repo = std::path::Path::new(&pos[0]);
-    let lib = repo.join("src").join("lib.rs");
-    let src = std::fs::read_to_string(&lib).map_err(|e| format!("cannot read {}: {}", lib.display(), e))?;
-    let file = syn::parse_file(&src)
-        .map_err(|e| format!("cannot parse {}: {} (line {})", lib.display(), e, e.span().start().line))?;
-
-    check_struct(&file)?;
-    check_names(&file)?;
-
-    // where the functions are: free functions at the crate root, methods in the
-    // inherent impl blocks of CircularBuffer; every name exactly once
-    let all: Vec<&str> = REQUIRED.iter().chain(OPTIONAL.iter()).copied().collect();
-    let mut found: HashMap<String, Vec<Src>> = HashMap::new();
-    for it in &file.items {
-        match it {
-            Item::Fn(f) if all.contains(&f.sig.ident.to_string().as_str()) => {
-                found.entry(f.sig.ident.to_string()).or_default().push(Src {
-                    sig: &f.sig,
-                    attrs: &f.attrs,
-                    block: &f.block,
-                    span: f.span(),
-                    method: false,
-                });
+    let all = units();
+    let mut files: HashMap<&'static str, syn::File> = HashMap::new();
+    let mut file_errors: HashMap<&'static str, String> = HashMap::new();
+    for f in ["src/lib.rs", "src/iter.rs", "src/drain.rs", "src/io.rs", "src/embedded_io.rs"] {
+        let p = repo.join(f);
+        let r = std::fs::read_to_string(&p)
+            .map_err(|e| format!("cannot read {}: {}", p.display(), e))
+            .and_then(|src| syn::parse_file(&src).map_err(|e| format!("cannot parse {}: {} (line {})", p.display(), e, e.span().start().line)));
+        match r {
+            Ok(x) => {
+                files.insert(f, x);
             }
-            Item::Impl(im) if is_buffer_impl(im) => {
-                for ii in &im.items {
-                    if let syn::ImplItem::Fn(f) = ii {
-                        if all.contains(&f.sig.ident.to_string().as_str()) {
-                            found.entry(f.sig.ident.to_string()).or_default().push(Src {
-                                sig: &f.sig,
-                                attrs: &f.attrs,
-                                block: &f.block,
-                                span: f.span(),
-                                method: true,
-                            });
-                        }
-                    }
-                }
+            Err(e) if f == "src/lib.rs" => return Err(e),
+            Err(e) => {
+                file_errors.insert(f, e);
             }
-            _ => {}
+        }
+    }
+    if let Err(e) = check_structs(&files) {
+        // the struct of the buffer itself is a precondition of everything
+        if e.contains("CircularBuffer") && !e.contains("IntoIter") {
+            return Err(e);
+        }
+        for f in ["src/iter.rs", "src/drain.rs"] {
+            file_errors.entry(f).or_insert(e.clone());
+        }
+    }
+    let lib_names: &[(&str, &[&str], bool)] = &[
+        ("mem", &["core::mem", "std::mem"], true),
+        ("ptr", &["core::ptr", "std::ptr"], true),
+        ("MaybeUninit", &["core::mem::MaybeUninit", "std::mem::MaybeUninit"], true),
+        ("Range", &["core::ops::Range", "std::ops::Range"], true),
+        ("RangeBounds", &["core::ops::RangeBounds", "std::ops::RangeBounds"], false),
+        ("Iter", &["crate::iter::Iter"], false),
+        ("IterMut", &["crate::iter::IterMut"], false),
+        ("Drain", &["crate::drain::Drain"], false),
+    ];
+    check_names("src/lib.rs", &files["src/lib.rs"], lib_names)?;
+    let other_names: &[(&str, &[(&str, &[&str], bool)])] = &[
+        (
+            "src/iter.rs",
+            &[
+                ("Bound", &["core::ops::Bound", "std::ops::Bound"], true),
+                ("RangeBounds", &["core::ops::RangeBounds", "std::ops::RangeBounds"], true),
+                ("CircularBuffer", &["crate::CircularBuffer"], true),
+            ],
+        ),
+        (
+            "src/drain.rs",
+            &[
+                ("add_mod", &["crate::add_mod"], true),
+                ("translate_range_bounds", &["crate::iter::translate_range_bounds"], true),
+                ("CircularBuffer", &["crate::CircularBuffer"], true),
+                ("ptr", &["core::ptr", "std::ptr"], true),
+                ("NonNull", &["core::ptr::NonNull", "std::ptr::NonNull"], true),
+                ("Range", &["core::ops::Range", "std::ops::Range"], true),
+                ("RangeBounds", &["core::ops::RangeBounds", "std::ops::RangeBounds"], true),
+                ("PhantomData", &["core::marker::PhantomData", "std::marker::PhantomData"], true),
+                ("MaybeUninit", &["core::mem::MaybeUninit", "std::mem::MaybeUninit"], false),
+            ],
+        ),
+        (
+            "src/io.rs",
+            &[
+                ("CircularBuffer", &["crate::CircularBuffer"], true),
+                ("cmp", &["std::cmp", "core::cmp"], true),
+                ("Result", &["std::io::Result"], true),
+                ("Read", &["std::io::Read"], true),
+                ("Write", &["std::io::Write"], true),
+                ("BufRead", &["std::io::BufRead"], true),
+            ],
+        ),
+        ("src/embedded_io.rs", &[("CircularBuffer", &["crate::CircularBuffer"], true)]),
+    ];
+    for (f, names) in other_names {
+        if let Some(file) = files.get(f) {
+            if let Err(e) = check_names(f, file, names) {
+                file_errors.entry(f).or_insert(e);
+            }
         }
     }
 
     let requested: Vec<String> = match &only {
         Some(v) => {
             for n in v {
-                if !all.contains(&n.as_str()) {
+                if !all.iter().any(|u| u.key == n) {
                     return Err(format!("--only: `{}` is not a function this tool knows", n));
                 }
             }
             v.clone()
         }
-        None => all.iter().map(|s| s.to_string()).collect(),
+        None => all.iter().map(|u| u.key.to_string()).collect(),
     };
 
     let mut skipped: BTreeMap<String, String> = BTreeMap::new();
-    let mut srcs: HashMap<String, &Src> = HashMap::new();
-    let mut sigs: HashMap<String, Sig> = HashMap::new();
-    for n in &all {
-        match found.get(*n).map(|v| v.as_slice()) {
-            None | Some([]) => {
-                skipped.insert(n.to_string(), "src/lib.rs: no such function".into());
+    let mut srcs: HashMap<String, Src> = HashMap::new();
+    let mut fns: HashMap<String, FnInfo> = HashMap::new();
+    let mut index: HashMap<(Option<String>, String), String> = HashMap::new();
+    for un in &all {
+        set_file(un.file);
+        if let Some(e) = file_errors.get(un.file) {
+            skipped.insert(un.key.to_string(), e.clone());
+            continue;
+        }
+        let file = &files[un.file];
+        let s = match find(file, un.loc, &srcs) {
+            Ok(s) => s,
+            Err(e) => {
+                skipped.insert(un.key.to_string(), format!("{}: {}", un.file, e));
+                continue;
             }
-            Some([s]) => {
-                if s.method == FREE.contains(n) {
-                    skipped.insert(
-                        n.to_string(),
-                        format!("{}: expected a {}", at(s.span), if s.method { "free function" } else { "method" }),
-                    );
-                    continue;
-                }
-                match signature(n, s) {
-                    Ok(sig) => {
-                        sigs.insert(n.to_string(), sig);
-                        srcs.insert(n.to_string(), s);
+        };
+        match signature(un, &s) {
+            Ok(info) => {
+                // inherent methods and free functions are what calls resolve to; trait methods
+                // too, unless an inherent method of the same type has the name
+                let k = (info.owner.clone(), info.name.clone());
+                let inherent = !matches!(un.loc, Loc::Method(_, Some(_), _));
+                if inherent || !index.contains_key(&k) {
+                    if !(k.0.as_deref() == Some("CircularBuffer") && !inherent) {
+                        index.insert(k, un.key.to_string());
                     }
-                    Err(e) => {
-                        skipped.insert(n.to_string(), e);
-                    }
                 }
+                fns.insert(un.key.to_string(), info);
+                srcs.insert(un.key.to_string(), s);
             }
-            Some(v) => {
-                skipped.insert(n.to_string(), format!("src/lib.rs: {} definitions", v.len()));
+            Err(e) => {
+                srcs.insert(un.key.to_string(), s);
+                skipped.insert(un.key.to_string(), e);
             }
+        }
+    }
+    // no hand-written counterpart: nothing to be equal to
+    for un in &all {
+        if un.hand.is_empty() && !skipped.contains_key(un.key) {
+            skipped.insert(un.key.to_string(), "the model has no counterpart (the wrapped buffer is the state itself)".into());
         }
     }
     let uses_assume = |s: &Src| {
         let mut ids = HashSet::new();
-        collect_idents(quote::ToTokens::to_token_stream(s.block), &mut ids);
+        collect_idents(quote::ToTokens::to_token_stream(&s.block), &mut ids);
         ids.contains("slice_assume_init_ref") || ids.contains("slice_assume_init_mut")
     };
-    let assume_ok = check_assume_init(&file);
+    let assume_ok = check_assume_init(&files["src/lib.rs"]);
 
-    let exts = externals();
-    let mut done: HashSet<String> = HashSet::new();
+    let mut done: HashMap<String, DoneInfo> = HashMap::new();
     let mut order: Vec<(String, Done)> = vec![];
     let mut active: Vec<String> = vec![];
 
-    fn ensure<'a>(
+    struct Ctx<'x> {
+        all: &'x [Unit],
+        srcs: &'x HashMap<String, Src>,
+        fns: &'x HashMap<String, FnInfo>,
+        index: &'x HashMap<(Option<String>, String), String>,
+    }
+    fn ensure(
         name: &str,
-        srcs: &HashMap<String, &Src<'a>>,
-        sigs: &HashMap<String, Sig>,
-        exts: &HashMap<&'static str, External>,
-        done: &mut HashSet<String>,
+        cx: &Ctx,
+        done: &mut HashMap<String, DoneInfo>,
         order: &mut Vec<(String, Done)>,
         skipped: &mut BTreeMap<String, String>,
         active: &mut Vec<String>,
         pre_check: &dyn Fn(&Src) -> Res<()>,
     ) -> bool {
-        if done.contains(name) {
+        if done.contains_key(name) {
             return true;
         }
         if skipped.contains_key(name) {
@@ -576,9 +1148,9 @@ fn run() -> Res<i32> {
             skipped.insert(name.to_string(), format!("recursion through {}", active.join(" -> ")));
             return false;
         }
-        let s = match srcs.get(name) {
-            Some(s) => *s,
-            None => {
+        let (s, un) = match (cx.srcs.get(name), cx.all.iter().find(|u| u.key == name)) {
+            (Some(s), Some(u)) => (s, u),
+            _ => {
                 skipped.insert(name.to_string(), "not found".into());
                 return false;
             }
@@ -589,15 +1161,19 @@ fn run() -> Res<i32> {
         }
         active.push(name.to_string());
         let ok = loop {
-            match attempt(name, s, sigs, done, exts) {
+            match attempt(un, s, cx.fns, cx.index, done) {
                 Attempt::Ok(d) => {
-                    done.insert(name.to_string());
+                    done.insert(name.to_string(), d.info.clone());
                     order.push((name.to_string(), d));
                     break true;
                 }
                 Attempt::Need(g, msg) => {
-                    // a callee with a hand-written stand-in may stay untranslated
-                    if !ensure(&g, srcs, sigs, exts, done, order, skipped, active, pre_check) {
+                    if !ensure(&g, cx, done, order, skipped, active, pre_check) {
+                        // a callee with a hand-written stand-in may stay untranslated
+                        if let Some((_, h)) = EXTERNALS.iter().find(|(k, _)| *k == g) {
+                            done.insert(g.clone(), DoneInfo { user: true, external: Some(h.to_string()), ..Default::default() });
+                            continue;
+                        }
                         let why = skipped.get(&g).cloned().unwrap_or_default();
                         skipped.insert(
                             name.to_string(),
@@ -623,8 +1199,9 @@ fn run() -> Res<i32> {
             Ok(())
         }
     };
+    let cx = Ctx { all: &all, srcs: &srcs, fns: &fns, index: &index };
     for n in &requested {
-        ensure(n, &srcs, &sigs, &exts, &mut done, &mut order, &mut skipped, &mut active, &pre_check);
+        ensure(n, &cx, &mut done, &mut order, &mut skipped, &mut active, &pre_check);
     }
     // with --only, functions that were not requested (and not needed) are not reported
     if only.is_some() {
@@ -633,11 +1210,10 @@ fn run() -> Res<i32> {
 
     // ---- output
     let mut out = String::new();
-    out.push_str("(* CoreGen.v — GENERATED by tools/rs2coq_core from src/lib.rs. Do not edit. *)\n\n");
+    out.push_str("(* CoreGen.v — GENERATED by tools/rs2coq_core from src/*.rs. Do not edit. *)\n\n");
     out.push_str("From CB Require Import Machine.\n");
-    if order.iter().any(|(_, d)| !d.ext_calls.is_empty()) {
-        out.push_str("From CB Require Buf.   (* hand-written stand-ins of untranslated callees *)\n");
-    }
+    out.push_str("(* only the record types of the model (iter, drain, csp, bound), zlen and the model of\n   <&[u8] as Read>::read (slice_read) are referred to, by their qualified names *)\n");
+    out.push_str("From CB Require Buf Iter Drain Io.\n");
     out.push_str("Open Scope Z_scope.\n\n");
     out.push_str(PRELUDE);
     for (_, d) in &order {
@@ -645,24 +1221,31 @@ fn run() -> Res<i32> {
         out.push('\n');
     }
     // proof support, not part of any statement: how to open the generated definitions
-    // (the two arithmetic functions stay folded: they are identified with the model's first)
-    let mut names = vec!["gen_mem_replace".to_string(), "gen_swap_nonoverlapping".into(), "gen_rotate_left".into()];
+    // (the two arithmetic functions and the loops stay folded: they are identified with the model's first)
+    let mut names: Vec<String> = [
+        "gen_mem_replace", "gen_swap_nonoverlapping", "gen_rotate_left", "gen_range_next", "gen_range_next_back",
+        "gen_range_len", "gen_split_first", "gen_split_last", "gen_repr_guard", "gen_bounds_check",
+    ]
+    .iter()
+    .map(|s| s.to_string())
+    .collect();
     for (n, _) in &order {
-        if !FREE.contains(&n.as_str()) {
+        if !FREE_ARITH.contains(&n.as_str()) {
             names.push(format!("gen_{}", n));
         }
     }
-    out.push_str("(* proof support: opens every generated definition except gen_add_mod / gen_sub_mod *)\n");
+    out.push_str("(* proof support: opens every generated definition except gen_add_mod / gen_sub_mod and the loops *)\n");
     write!(out, "Ltac coregen_unfold :=\n  cbv beta iota zeta delta\n    [{}].\n", names.join("\n     ")).unwrap();
     std::fs::write(&pos[1], &out).map_err(|e| format!("cannot write {}: {}", pos[1], e))?;
 
     let mut js = String::from("{\n \"translated\": [\n");
     for (k, (n, d)) in order.iter().enumerate() {
+        let un = all.iter().find(|u| u.key == n).unwrap();
         write!(
             js,
-            "  {{\"name\": {}, \"gen\": {}, \"hand\": {}, \"lines\": [{}, {}], \"params\": {}, \"ret\": {}, \"calls\": {}, \"hand_callees\": {}}}{}\n",
-            json_str(n), json_str(&format!("gen_{}", n)), json_str(&hand_name(n)), d.lines.0, d.lines.1,
-            json_list(&d.params), json_str(&d.ret), json_list(&d.calls), json_list(&d.ext_calls),
+            "  {{\"name\": {}, \"gen\": {}, \"hand\": {}, \"pure_hand\": {}, \"item\": {}, \"file\": {}, \"lines\": [{}, {}], \"params\": {}, \"ret\": {}, \"calls\": {}, \"loops\": {}, \"hand_callees\": {}}}{}\n",
+            json_str(n), json_str(&format!("gen_{}", n)), json_str(un.hand), un.pure_hand, json_str(un.item), json_str(un.file),
+            d.lines.0, d.lines.1, json_list(&d.params), json_str(&d.ret), json_list(&d.calls), json_list(&d.loops), json_list(&d.ext_calls),
             if k + 1 == order.len() { "" } else { "," }
         )
         .unwrap();
@@ -671,11 +1254,16 @@ fn run() -> Res<i32> {
     for (k, (n, why)) in skipped.iter().enumerate() {
         write!(js, "  {}: {}{}\n", json_str(n), json_str(why), if k + 1 == skipped.len() { "" } else { "," }).unwrap();
     }
+    js.push_str(" },\n \"items\": {\n");
+    for (k, un) in all.iter().enumerate() {
+        write!(js, "  {}: {}{}\n", json_str(un.key), json_str(un.item), if k + 1 == all.len() { "" } else { "," }).unwrap();
+    }
     js.push_str(" }\n}\n");
     let jp = format!("{}.json", pos[1]);
     std::fs::write(&jp, js).map_err(|e| format!("cannot write {}: {}", jp, e))?;
 
     for (n, d) in &order {
+        let un = all.iter().find(|u| u.key == n).unwrap();
         let mut extra = String::new();
         if !d.calls.is_empty() {
             write!(extra, " calls [{}]", d.calls.join(", ")).unwrap();
@@ -683,12 +1271,12 @@ fn run() -> Res<i32> {
         if !d.ext_calls.is_empty() {
             write!(extra, " relative to the hand-written model of [{}]", d.ext_calls.join(", ")).unwrap();
         }
-        println!("translated fn {} src/lib.rs:{}-{}{}", n, d.lines.0, d.lines.1, extra);
+        println!("translated fn {} {}:{}-{}{}", n, un.file, d.lines.0, d.lines.1, extra);
     }
     let mut rc = 0;
     for (n, why) in &skipped {
         println!("skipped fn {}: {}", n, why);
-        let must = REQUIRED.contains(&n.as_str()) || strict || only.is_some();
+        let must = all.iter().any(|u| u.key == n && u.required) || strict || only.is_some();
         if must {
             eprintln!("rs2coq_core: fn {}: NOT TRANSLATED: {}", n, why);
             rc = 1;
